@@ -4,6 +4,7 @@ import GSProofs.Lemmas.PanicsResCalm
 import GSProofs.Lemmas.PanicsResSlots
 import GSProofs.Lemmas.PanicsResLeak
 import GSProofs.Lemmas.PanicsResClean
+import GSProofs.Lemmas.PanicsResAbs
 /-!
 # C22 - A panic in per-request code fails only that request
 
@@ -267,7 +268,9 @@ theorem calm_init (reqs : List RReq) : calm (Res.init reqs) = Res.init (reqs.map
 theorem resources_calm (s : RSys) : resources (calm s) = resources s := by
   simp [resources, calm, calmReq, Function.comp_def]
 
-/-- **After a recovered panic every resource is where an ordinary error would have left it** - "the
+/-- (RELATIVE statement - it compares two runs and would also hold for a clean-up path that leaks in both;
+the absolute counterparts are `released_after_panic`, `all_done_empty`, `slots_returned`.)
+**After a recovered panic every resource is where an ordinary error would have left it** - "the
 process keeps running and other requests are unaffected", for what requests really share.  For the
 node of either side as the source has it now, any number of workers `w ≥ 0` and per-peer cap `c`, any
 list of requests (calls of listed kinds, any of them panicking, any number of panics) and any
@@ -288,7 +291,7 @@ theorem isolation_resources (sd : Side) (w c : Nat) (reqs : List RReq)
   rw [calm_init] at hcalm
   exact ⟨run_crashed sched hs rfl, by rw [← hcalm, resources_calm], hcalm⟩
 
-/-- **Other requests are unaffected**: a request `j` none of whose own calls panics - e.g. one
+/-- (RELATIVE statement, like `isolation_resources`.)  **Other requests are unaffected**: a request `j` none of whose own calls panics - e.g. one
 submitted later by the same peer, waiting for the single worker under a per-peer cap of 1 - is, after
 any schedule, in exactly the state (phase, remaining script, outcome, delivered flag, mutex) it is in
 when the other requests' panics are ordinary errors. -/
@@ -356,25 +359,30 @@ def leakyCfg : Cfg :=
 
 def exA : RReq :=
   { peer := 0, script := [⟨.requestor, .chooser, .ok⟩, ⟨.requestor, .storageRead, .panic⟩, ⟨.requestor, .codec, .ok⟩],
-    phase := .queued, out := .running, cls := .none, delivered := false, lock := false }
+    phase := .queued, out := .running, cls := .none, delivered := false, lock := false, released := 0 }
 def exB : RReq :=
   { peer := 0, script := [⟨.requestor, .chooser, .ok⟩, ⟨.requestor, .codec, .ok⟩],
-    phase := .queued, out := .running, cls := .none, delivered := false, lock := false }
+    phase := .queued, out := .running, cls := .none, delivered := false, lock := false, released := 0 }
 /-- request 0 is driven to its end, then request 1 -/
 def exResSched : List Nat := [0, 0, 0, 0, 0, 0, 0, 0, 1, 1, 1, 1, 1, 1, 1, 1]
 
 /-- **Counterexample**: with one worker, a per-peer cap of 1 and the leaky path, once request 0 has
 been popped no schedule whatsoever ever lets request 1 of the same peer start - although request 0
-itself fails "properly" (RecoveredPanicErr, callback).  With the generated path the same two requests
+itself fails "properly" (RecoveredPanicErr, callback) and reaches `done` still holding its slot, its
+table entry and its tracker records; the decidable path check `releasesAll`, which the absolute theorems
+`released_after_panic` / `all_done_empty` rest on, is false for the leaky list and true for both
+generated ones.  With the generated path the same two requests
 under a plain schedule both finish and everything is released. -/
 theorem leak_counterexample :
+    releasesAll leakyCfg.levels leakyCfg.trav = false ∧
+    (∀ sd, releasesAll (levelsOf sd) travFrame = true) ∧
     (∀ sched : List Nat, ∃ q, (Res.run leakyCfg (Res.init [exA, exB]) (0 :: sched)).reqs[1]? = some q ∧ q.phase = .queued) ∧
     (let s := Res.run leakyCfg (Res.init [exA, exB]) exResSched
-     (s.reqs.map (·.phase) = [.done, .queued]) ∧ s.busy = 1 ∧ (s.reqs.map (·.out) = [.panicErr .requestor .storageRead, .running])) ∧
+     (s.reqs.map (·.phase) = [.done, .queued]) ∧ s.busy = 1 ∧ s.active = [0] ∧ s.table = [0, 1] ∧ s.tracker = [0] ∧ (s.reqs.map (·.out) = [.panicErr .requestor .storageRead, .running])) ∧
     (let s := Res.run (cfgOf .requestor 1 1) (Res.init [exA, exB]) exResSched
      (s.reqs.map (·.phase) = [.done, .done]) ∧ s.busy = 0 ∧ s.active = [] ∧ s.table = [] ∧ s.tracker = [] ∧
      (s.reqs.map (·.out) = [.panicErr .requestor .storageRead, .completed])) := by
-  refine ⟨?_, by decide, by decide⟩
+  refine ⟨by decide, fun sd => by cases sd <;> decide, ?_, by decide, by decide⟩
   intro sched
   have nr : NoRelease leakyCfg := fun cl => by cases cl <;> decide
   have hstuck : Stuck leakyCfg (Res.step leakyCfg (Res.init [exA, exB]) 0) := by
@@ -406,5 +414,84 @@ example :
   intro r hr cl hcl
   simp only [List.mem_cons, List.mem_nil_iff, or_false] at hr
   rcases hr with rfl | rfl <;> revert cl <;> decide
+
+/-! ### Absolute release (not relative to the ordinary-error run)
+
+`isolation_resources` and `later_unaffected` above are RELATIVE statements (panic run = ordinary-error
+run); they would also hold for a path that leaks in both.  The following are ABSOLUTE and rest on the
+decidable check `releasesAll` of the GENERATED lists (false for the leaky list, see
+`leak_counterexample`).  Allocator bytes (response memory) are NOT a resource of this model: they are
+reserved inside a response transaction and released when the message is sent; the translator checks
+that the block load (`Loader`, `loadBlock`) is not lexically inside a `Transaction` closure, so none is
+held at the panic sites; that the memory really returns to zero is checked on the real code only (leak
+oracle `response-memory-*`). -/
+
+theorem generated_releasesAll (sd : Side) (w c : Nat) : RelOK (cfgOf sd w c) := by
+  apply relOK_of_check
+  show releasesAll (levelsOf sd) travFrame = true
+  cases sd <;> decide
+
+/-- **A request that has been through its clean-up holds nothing** - in particular one that ended by a
+recovered panic.  For the node of either side as the source has it now, any number of workers, any cap,
+any list of freshly submitted requests, any schedule: as soon as request `i` has reached phase `done`
+(its clean-up statements are exhausted) it occupies no worker slot and counts for no peer's work in
+progress (`holds r = false`), has no table entry, no tracker records, its traverser's mutex is free,
+and TaskDone has been called for it exactly once. -/
+theorem released_after_panic (sd : Side) (w c : Nat) (reqs : List RReq) (hf : ∀ r ∈ reqs, Fresh r)
+    (sched : List Nat) (i : Nat) (r : RReq) :
+    let s := Res.run (cfgOf sd w c) (Res.init reqs) sched
+    s.reqs[i]? = some r → r.phase = .done →
+    holds r = false ∧ i ∉ s.table ∧ i ∉ s.tracker ∧ r.lock = false ∧ r.released = 1 := by
+  intro s hr hd
+  have habs : Abs s := run_abs (generated_releasesAll sd w c) sched (init_abs reqs hf)
+  obtain ⟨h1, h2, h3, h4, h5⟩ := done_holds_nothing habs hr hd
+  exact ⟨h5, h1, h2, h3, h4⟩
+
+/-- **Absolute emptiness**: when every request is done - whether it completed, failed with an
+ordinary error or ended by a recovered panic - no worker is busy, no peer has work in progress, the
+request / response table is empty and no tracker records are left. -/
+theorem all_done_empty (sd : Side) (w c : Nat) (reqs : List RReq) (hf : ∀ r ∈ reqs, Fresh r)
+    (sched : List Nat) :
+    let s := Res.run (cfgOf sd w c) (Res.init reqs) sched
+    (∀ r ∈ s.reqs, r.phase = .done) →
+    s.busy = 0 ∧ (∀ p, s.active.count p = 0) ∧ s.table = [] ∧ s.tracker = [] := by
+  intro s hall
+  have habs : Abs s := run_abs (generated_releasesAll sd w c) sched (init_abs reqs hf)
+  obtain ⟨_, hfree⟩ := slots_returned sd w c reqs (fun r hr => (hf r hr).phase) sched
+  obtain ⟨hb, ha⟩ := hfree (fun r hr => Or.inr (hall r hr))
+  obtain ⟨ht, hk⟩ := all_done_tables_empty habs hall
+  exact ⟨hb, ha, ht, hk⟩
+
+/-- Non-vacuity of `released_after_panic` / `all_done_empty`: a concrete run in which request 0 ends by
+a recovered panic, both requests reach `done`, and the hypotheses hold. -/
+example :
+    (∀ r ∈ [exA, exB], Fresh r) ∧
+    (let s := Res.run (cfgOf .requestor 1 1) (Res.init [exA, exB]) exResSched
+     (∀ r ∈ s.reqs, r.phase = .done) ∧ (s.reqs.map (·.cls) = [.panicked, .none]) ∧
+     (s.reqs.map (·.released) = [1, 1])) := by
+  refine ⟨?_, by decide⟩
+  intro r hr
+  simp only [List.mem_cons, List.mem_nil_iff, or_false] at hr
+  rcases hr with rfl | rfl <;> exact ⟨rfl, rfl, rfl, rfl⟩
+
+/-- Non-vacuity of `later_can_start`: after request 0 (recovered panic) has run to `done` with request 1
+of the same peer still queued - one worker, cap 1 - the hypotheses hold and request 1 is popped. -/
+example :
+    (let s := Res.run (cfgOf .requestor 1 1) (Res.init [exA, exB]) [0, 0, 0, 0, 0, 0, 0, 0]
+     s.crashed = false ∧ (∀ q ∈ s.reqs, q.phase = .queued ∨ q.phase = .done) ∧
+     (s.reqs.map (·.phase) = [.done, .queued]) ∧
+     ((Res.step (cfgOf .requestor 1 1) s 1).reqs.map (·.phase) = [.done, .running])) := by decide
+
+set_option maxRecDepth 20000 in
+/-- **The driver's `late= leak= res=` prediction is computed from the clean-up list**, not a constant:
+with the generated responder path the late request completes and nothing is left; with `FinishTask`
+removed from that path (one worker, one task per peer) the late request never starts and task-queue and
+table entries remain (`gsm-panics` then prints `late=0 leak=1 res=tasks:3,table:3` for such an injection). -/
+example :
+    let good := predictResWith (levelsOf .responder) travFrame .responder .storageRead 0 1 0 true
+    let bad := predictResWith ((levelsOf .responder).map (fun l => l.filter (fun it => it.act ≠ .finishTask)))
+                 travFrame .responder .storageRead 0 1 0 true
+    (good.late, good.leak, good.tasks, good.table, good.tracker) = (true, false, 0, 0, 0) ∧
+    (bad.late, bad.leak) = (false, true) ∧ bad.tasks ≠ 0 ∧ bad.table ≠ 0 := by decide
 
 end GS.C22
